@@ -894,6 +894,60 @@ def replay_only(ctx, exe, known):
         ctx.violation("C09 replay: correspondence still broken: op %s real %s model %s" % (d[1][:200], d[2][:200], d[3][:200]), rep, no_input=True)
 
 
+def _convert_job(c):
+    from checks import _signal as S
+    try:
+        ratio = float(c["ir"]) / float(c["orr"])
+        r = S.tone_job(c, 0.2 * min(1.0, 1.0 / ratio), amp=0.5, nfit=4000)
+    except Exception as ex:          # a run that dies is a result too
+        r = {"error": repr(ex)[:300]}
+    r["cfg"] = c
+    return r
+
+
+def stage_converts(ctx, n):
+    """accepted => converts correctly (the property's observe_at: 'behaviour of the created object under C01 probes'): a tone at a fifth
+    of the lower Nyquist limit, half of full scale, through configurations drawn over the WHOLE documented ranges rather than the
+    recipes' points - precision in half-bit bins over [15, 33], every coefficient-interpolation setting, rational and irrational ratios,
+    phase and band edges - must come out as that tone: gain within 1 dB, everything else at least 40 dB down.  (Loose on purpose: this is
+    not C01's accuracy claim, only 'the resampler converts'.)"""
+    from checks import _signal as S
+    rng = ctx.rng
+    jobs = []
+    ratios_irr = [(44100, 48001), (48000, 44101), (3.14159, 1), (1, 2.71828), (1.0001, 1), (1, 1.41421356), (7.3, 1), (1, 9.87)]
+    ratios_rat = [(44100, 48000), (48000, 44100), (3, 2), (2, 3), (1, 2), (5, 1), (1, 6), (96000, 44100), (147, 80), (8, 1)]
+    bins = [15.0 + 0.5 * k for k in range(36)]
+    for i in range(n):
+        lo = bins[i % len(bins)]
+        prec = round(min(33.0, lo + rng.uniform(0.0, 0.5)), 3) if rng.chance(.8) else rng.choice([lo, min(33.0, lo + 0.5)])
+        irr = (i // len(bins)) % 2 == 0
+        ir, orr = rng.choice(ratios_irr if irr else ratios_rat)
+        c = S.mkcfg(ir, orr, recipe=rng.choice([4, 4, 6, 1, 4 | 0x40]), qflags=rng.choice([0, 0, 8, 16, 1, 2]), simd=rng.below(2), prec=prec,
+                    rtflags=rng.choice([0, 0, 1, 2, 3]) if not irr else rng.choice([0, 0, 2, 3]))
+        if rng.chance(.3):
+            c["phase"] = rng.choice([0, 25, 50, 75, 100, round(rng.uniform(0, 100), 1)])
+        if rng.chance(.25):
+            c["kb"] = 50 + rng.below(700)
+        if rng.chance(.2):
+            c["min"], c["large"] = 8 + rng.below(8), 8 + rng.below(13)
+        jobs.append(c)
+    for r in S.pool_map(_convert_job, jobs):
+        ctx.count("evaluations"); ctx.count("converts_probes")
+        c = r["cfg"]
+        if "skipped" in r:
+            ctx.count("converts_skipped"); continue
+        ctx.hist("dist_converts_precision", int(float(c["prec"])))
+        if "error" in r:
+            violation(ctx, "converts", "C09 fails on the real code: an accepted configuration does not run: %s (%s)" % (r["error"], S.cfg_label(c)), {"stage": "converts", "cfg": c, "result": r})
+            continue
+        ctx.hist("dist_converts_kinds", r.get("kinds"))
+        resid_db = 20 * math.log10(max(r["resid"] / 0.5, 1e-30))
+        if abs(r["gain_db"]) > 1.0 or resid_db > -40.0:
+            violation(ctx, "converts", "C09 fails on the real code: soxr_create accepted the configuration but the resampler does not convert: a tone at %.4f x input "
+                      "Nyquist, amplitude 0.5, comes out with gain %+.2f dB and a residual %.1f dB below it - i.e. not the tone (%s; stages %s)"
+                      % (r["f_in"], r["gain_db"], -resid_db, S.cfg_label(c), r.get("kinds")), {"stage": "converts", "cfg": c, "result": {k: v for k, v in r.items() if k != "cfg"}})
+
+
 def run(ctx):
     broken = common.proof_stage(ctx, ["SoxrModel.Properties.C09"], "C09", exes=("soxr_config", "soxrmodel"), gens=("Config",))
     known = {f["id"]: f for f in common.known_active(PID)}
@@ -908,6 +962,7 @@ def run(ctx):
     stage_working(ctx, units, 220 if ctx.quick else 5000, known)
     stage_thresholds(ctx, 400 if ctx.quick else 6000, known)
     stage_planner(ctx, 1500 if ctx.quick else 40000)
+    stage_converts(ctx, 144 if ctx.quick else 3600)
     stage_pinned(ctx, exe, known)
     ctx.cov["rule"] = ("generated soxr_create calls over the product space (rates: audio / small integers / 1e-300..1e300 decades / the 2^31 factor bound / "
                        "big up-sampling / zeros, signs, non-finite, overflowing quotients; channels 0..300; recipes 0..15 x phase bits x steep x flag words; "
